@@ -6,13 +6,18 @@ CFG = {
              "repeated and unknown tags), optionally with nested lib dictionaries written in descending key order, data/images stores and a "
              "second layer with glyph libs and layerinfo; each tree is loaded 12x (quick) / 32x (thorough) in-process (fresh RandomState per "
              "HashMap) and every 8th tree in 2 / 4 freshly spawned processes; every loaded font is saved, the first one three times; dumps and "
-             "tree hashes are compared. non-trivial = at least one generated group name needs a numeric suffix, or a format-1 tree has >=2 "
-             "feature blocks and no featureorder; distinct by input tokens"),
+             "tree hashes are compared; a third of the trees additionally get 1-4 data-store inserts through the API before each save (keys from a "
+             "pool with aliases: a.txt, ./a.txt, b/c.txt, b/./c.txt, n.txt, ./n.txt). Plus `lib` cases: 1500 (quick) / 20000 (thorough) random lib values "
+             "(depth <=4, dictionaries, arrays, dictionaries inside arrays) set as font lib, layer lib and glyph lib of two fonts built through the API "
+             "with the same map but another insertion order at every dictionary (a quarter also inside arrays), saved and compared byte for byte. "
+             "non-trivial = at least one generated group name needs a numeric suffix, or a format-1 tree has >=2 feature blocks and no featureorder, "
+             "or the store inserts alias, or (lib) the two values are equal but not identical; distinct by input tokens"),
     "exhaustive": {"quick": False, "thorough": False},
     "search_timeout": 150,
     "trusted_base": COMMON_TRUST + [
         "hash order of std HashMap/HashSet is modelled as an arbitrary order parameter; the harness samples it (fresh RandomState per instance and per process), it cannot enumerate it",
         "thread scheduling (rayon) is not exercised by this check: the harness is built without the rayon feature (C19 covers parallel = sequential)",
+        "plist::Value equality (`==`, insertion order ignored) and IndexMap::sort_keys are transcribed as pvEq / sortEntries and compared with the crate on every lib case",
         "the byte identity of saved trees is observed (hash over sorted path/kind/bytes), not modelled; the model predicts groups, kerning and the features text",
     ],
     "assumptions": [
@@ -27,7 +32,11 @@ MANIFEST = {
              "gives the same output; the glyph-name set, the validator's sets and the rename tables are proved to be consulted for membership / "
              "lookup only), and the two defects of the unrepaired code are kept as counterexample theorems. The correspondence loads each "
              "generated legacy tree 16-32 times in-process and in fresh processes, saves every result, and demands one dump, one tree hash and "
-             "sorted dictionaries; the model predicts the unique groups/kerning/features."),
+             "sorted dictionaries; the model predicts the unique groups/kerning/features. "
+             "recursive_sort_plist_keys is modelled on plist values: written_plists_sorted (every dictionary reachable through dictionaries is sorted; "
+             "arrays are not visited), written_lib_function_of_map (the written lib does not depend on the insertion history wherever the sort reaches), "
+             "store_save_order_independent (writes to pairwise different files commute); the two places where equal fonts are NOT written identically "
+             "(dictionary inside an array; aliasing store keys) are proved as counterexamples, reproduced on the crate and listed as known findings."),
     "design_ref": "5 / C10",
     "note": "hash order and process identity are sampled, not enumerated; rayon scheduling is C19; store write order is argued (distinct files commute), not modelled here",
     "technique": "Lean 4 theorems quantified over all permutations (order parameters) + repeated in-process / fresh-process load-save comparison",
